@@ -406,7 +406,7 @@ func (rule *RuleAction) checkInvalidRunsProps(pos *Pos, r *ActionMetadataRuns, t
 			prop == "pre-if" && r.PreIf != "" ||
 			prop == "post" && r.Post != "" ||
 			prop == "post-if" && r.PostIf != "" ||
-			prop == "steps" && len(r.Steps) > 0 ||
+			prop == "steps" && r.Steps != nil ||
 			prop == "image" && r.Image != "" ||
 			prop == "pre-entrypoint" && r.PreEntrypoint != "" ||
 			prop == "entrypoint" && r.Entrypoint != "" ||
